@@ -404,3 +404,34 @@ def r7_whole_w_tested(ck, P):
             ck.violation(R, f.name, 'shortcut on the integer part of w == %d' % k, 'pixman_transform_point_31_16 takes the w == %s shortcut whenever the integer part of w equals %d, without testing the 16-bit fraction: for w slightly above that value the division is skipped and the result is off by value * 2^-16 while TRUE is returned' % ('1.0' if k == 65536 else str(k), k), b.insts[0].loc())
     if n == 0:
         ck.incomplete(R, 'no shortcut on the integer part of w found')
+
+
+def r8_forward_reverse_order(ck, P):
+    """sibling agreement of scale / rotate / translate (fixed and floating): which side the elementary matrix is applied on"""
+    R = ck.rule('C11-R8', 'every function that updates a (forward, reverse) pair of transforms multiplies the elementary matrix on the left of forward (forward = T * forward) and on the right of reverse (reverse = reverse * T^-1), so that reverse stays the inverse of forward', floor=8)
+    u = P.units.get('pixman-matrix.c')
+    n = 0
+    for f in (u.functions.values() if u else []):
+        pn = [p[0] for p in f.params]
+        if 'forward' not in pn or 'reverse' not in pn:
+            continue
+        fi, ri = pn.index('forward'), pn.index('reverse')
+        for c in f.calls():
+            if not (isinstance(c.callee, str) and c.callee.endswith('_multiply')) or len(c.a) < 3:
+                continue
+            args = [f.strip_casts(o) for o in c.a[:3]]
+            dst = args[0]
+            if dst[:2] == ['a', fi]:
+                n += 1; ck.saw(f)
+                if args[2][:2] == ['a', fi] and args[1][0] == 'v' and f.by_id[args[1][1]].op == 'alloca':
+                    ck.ok(R, '%s: forward = T * forward' % f.name)
+                else:
+                    ck.violation(R, f.name, 'order of the forward product', '%s does not form forward = T * forward (the elementary matrix on the left): forward and reverse no longer describe inverse maps' % f.name, c.loc())
+            elif dst[:2] == ['a', ri]:
+                n += 1; ck.saw(f)
+                if args[1][:2] == ['a', ri] and args[2][0] == 'v' and f.by_id[args[2][1]].op == 'alloca':
+                    ck.ok(R, '%s: reverse = reverse * T' % f.name)
+                else:
+                    ck.violation(R, f.name, 'order of the reverse product', '%s does not form reverse = reverse * T^-1 (the elementary inverse on the right): for a reverse that already holds a translation or a non-uniform scale it is no longer the inverse of forward' % f.name, c.loc())
+    if n == 0:
+        ck.incomplete(R, 'no (forward, reverse) updater found in pixman-matrix.c')
